@@ -12,6 +12,8 @@ Case lines (shared with harness/c05/c05.c):
   inject <oid> <fn> [co|po <oid>]  fault at every instruction k of <oid>-><fn>()
   injectsafe <oid> <fn> <n>        the evaluation is safe_apply(fn, ob, n) from driver level; ops = (safe n declared …)
   injectco                         fault at every instruction of the real call_out() sweep (callbacks scheduled by prep)
+  injectbe cmd|hb|reset|cleanup    fault at every instruction of one cycle of the real backend(); ops = (becmd u1 t …) | (behb t …) |
+                                   (bereset t …) | (becleanup t …)
   run <oid> <fn>                   one evaluation without fault (side effects stay)
   input <oid> <text>               next input line of an interactive (pending input_to)
 op syntax:  (say t) (tmp n ops) (handler id ops) (setreg co|po|cg oid) (withcg oid ops) (install site ok|bad)
@@ -136,6 +138,18 @@ def parseOp (n : Names) : Nat → List String → Option (Op × List String)
     | "limit" :: rest => some (.raiseLimit, rest)
     | "load" :: rest => body rest .load
     | "dhook" :: o :: rest => body rest (.dhook (n.valOf o))
+    | "verb" :: _v :: rest => body rest (.verb 1)
+    | "heartbeat" :: o :: c :: rest => body rest (.heartBeat (n.valOf o) (n.valOf c))
+    -- one cycle of backend() (sugar, see `injectbe`):
+    -- process_user_command: command_giver = the user (restored on the normal path), apply process_input (1 argument) -> t::run
+    | "becmd" :: u :: o :: rest =>
+      body rest (fun p => .withCg (n.valOf u) (Prog.ofList [.call (.other (n.valOf u)) 1 1 (Prog.ofList [.call (.other (n.valOf o)) 0 0 p])]))
+    -- call_heart_beat: heart_beat () { run (); } of an object without commands enabled
+    | "behb" :: o :: rest => body rest (fun p => .heartBeat (n.valOf o) 0 (Prog.ofList [.call .local_ 0 0 p]))
+    -- look_for_objects_to_swap: its own recovery point; reset_object: command_giver = 0 around apply (reset, 0 arguments)
+    | "bereset" :: _o :: rest => body rest (fun p => .withCg 0 (Prog.ofList [.safeApply 0 0 (Prog.ofList [.call .local_ 0 0 p])]))
+    -- look_for_objects_to_swap: push_number; apply (clean_up, 1 argument)
+    | "becleanup" :: _o :: rest => body rest (fun p => .safeApply 1 1 (Prog.ofList [.call .local_ 0 0 p]))
     | _ => none
 end
 
@@ -162,19 +176,29 @@ def snapshot (n : Names) (m : M) : String :=
   s!"sp={i m.vs.length} csp={i m.cs.length} cg={n.nameOf m.cg} co={n.nameOf m.r.co} po={n.nameOf m.r.prevOb} " ++
   s!"prog={if m.r.prog == 0 then "0" else "p" ++ toString m.r.prog} ct={m.r.callerType} fp={i m.r.fp} " ++
   s!"pc={if m.r.pc == 0 then "null" else "set"} fio={m.r.fio} vio={m.r.vio} ctx={m.ctxs.length} " ++
-  s!"ld={m.loadDepth} rd={n.nameOf m.restrictDestruct}"
+  -- cgs: depth of the command_giver save stack (simulate.c); its only user (notify_no_command) calls back through
+  -- safe_call_function_pointer, so no longjmp passes it (tie: `Gen.C05.cgStackUsersCallBackSafely`)
+  s!"ld={m.loadDepth} rd={n.nameOf m.restrictDestruct} cgs=0 qv={if m.lastVerb == 0 then "0" else "set"}"
 
 /-- the fixed probe evaluation (harness/mudlib/c05/probe.c): its output depends on command_giver and on the
     side state only -/
-def probeText (n : Names) (baseCg : Val) (m : M) : String :=
+def probeText (n : Names) (baseCg : Val) (m : M) (hbObj : Option Val := none) : String :=
   let inp : String := if n.objs.contains "u1" then (if m.installed.contains "input_to" || m.installed.contains "get_char" then "1" else "0") else "-1"
-  s!"caught *probe-err ; probe tp={n.nameOf baseCg} po=0 d=0 l=0 a=3,4 e=*probe-err  co=42 side in={inp}"
+  -- query_heart_beat (t): on (1) in a heart-beat case unless error_handler switched it off
+  let hb : String := match hbObj with
+    | some t => if m.hbOff.contains t then "0" else "1"
+    | none => "0"
+  s!"caught *probe-err ; probe tp={n.nameOf baseCg} po=0 d=0 l=0 a=3,4 e=*probe-err  co=42 side in={inp} hb={hb}"
 
 def joinSemi (xs : List String) : String := " ; ".intercalate xs
 
-def outcomeText (n : Names) (baseCg : Val) (t : TopResult) : String :=
+def outcomeText (n : Names) (baseCg : Val) (t : TopResult) (hbObj : Option Val := none) : String :=
+  -- backend(): the snapshot at the next poll point; the backend's own context is not counted (as in the harness)
+  let loopSeg : List String := match t.loop with
+    | some m => ["loop " ++ snapshot n { m with ctxs := m.ctxs.drop 1 }]
+    | none => []
   joinSemi ((t.after.out.reverse.map renderEv) ++
-    [t.result, "after=" ++ snapshot n t.after, "probe=" ++ probeText n baseCg t.after])
+    [t.result] ++ loopSeg ++ ["after=" ++ snapshot n t.after, "probe=" ++ probeText n baseCg t.after hbObj])
 
 def dedupSorted (xs : List String) : List String :=
   (xs.mergeSort (fun a b => !(b < a))).eraseDups
@@ -187,6 +211,7 @@ structure DState where
   prog : Option Prog := none
   out : List String := []       -- newest first
   bad : List String := []
+  based : Bool := false         -- the reference snapshot / probe of this case has been printed
 
 def DState.emit (s : DState) (l : String) : DState := { s with out := l :: s.out }
 
@@ -219,7 +244,7 @@ def stepLine (s : DState) (line : String) : DState :=
     | none => { s with bad := line :: s.bad }
   | "#" :: _ => s
   | ["snap"] => s.emit ("snap " ++ snapshot s.names s.m)
-  | ["probe"] => s.emit ("probe " ++ probeText s.names s.m.cg s.m)
+  | ["probe"] => { s.emit ("probe " ++ probeText s.names s.m.cg s.m) with based := true }
   | "inject" :: oid :: _fn :: rest =>
     match s.prog with
     | none => { s with bad := line :: s.bad }
@@ -230,7 +255,7 @@ def stepLine (s : DState) (line : String) : DState :=
         | ["po", o] => [(.prevOb, s.names.valOf o)]
         | _ => []
       let baseCg := s.m.cg
-      let s1 := (s.emit ("base " ++ snapshot s.names s.m)).emit ("probe0 " ++ probeText s.names baseCg s.m)
+      let s1 := { (s.emit ("base " ++ snapshot s.names s.m)).emit ("probe0 " ++ probeText s.names baseCg s.m) with based := true }
       let free := runTop ob pre p 0 s.m
       let s2 := s1.emit ("free " ++ outcomeText s.names baseCg free)
       let n := match saveContext s.m with
@@ -246,7 +271,7 @@ def stepLine (s : DState) (line : String) : DState :=
     | none => { s with bad := line :: s.bad }
     | some p =>
       let baseCg := s.m.cg
-      let s1 := (s.emit ("base " ++ snapshot s.names s.m)).emit ("probe0 " ++ probeText s.names baseCg s.m)
+      let s1 := { (s.emit ("base " ++ snapshot s.names s.m)).emit ("probe0 " ++ probeText s.names baseCg s.m) with based := true }
       let free := runDriver p 0 s.m
       let s2 := s1.emit ("free " ++ outcomeText s.names baseCg free)
       let big := 1000000
@@ -261,12 +286,36 @@ def stepLine (s : DState) (line : String) : DState :=
       let shapes := dedupSorted (runs.filterMap (fun t => t.after.shape))
       let s3 := outcomes.foldl (fun acc o => acc.emit ("outcome " ++ o)) s2
       shapes.foldl (fun acc o => acc.emit ("shape " ++ o)) s3
+  | ["injectbe", kind] =>
+    match s.prog with
+    | none => { s with bad := line :: s.bad }
+    | some p =>
+      let baseCg := s.m.cg
+      let hbObj : Option Val := if kind == "hb" then some (s.names.valOf "t") else none
+      let s1 := { (s.emit ("base " ++ snapshot s.names s.m)).emit ("probe0 " ++ probeText s.names baseCg s.m hbObj) with based := true }
+      let free := runBackend p 0 s.m
+      let s2 := s1.emit ("free " ++ outcomeText s.names baseCg free hbObj)
+      let big := 1000000
+      let n := match saveContext (clearState s.m) with
+        | some (_, m1) => match exec p { m1 with fault := big, out := [], shape := none } with
+          | .ok m' => big - m'.fault
+          | .err m' => big - m'.fault
+          | .crash _ m' => big - m'.fault
+        | none => 0
+      let runs := (List.range n).map (fun j => runBackend p (j + 1) s.m)
+      let outcomes := dedupSorted (runs.map (fun t => outcomeText s.names baseCg t hbObj))
+      let shapes := dedupSorted (runs.filterMap (fun t => t.after.shape))
+      let s3 := outcomes.foldl (fun acc o => acc.emit ("outcome " ++ o)) s2
+      shapes.foldl (fun acc o => acc.emit ("shape " ++ o)) s3
   | ["run", oid, _fn] =>
     match s.prog with
     | none => { s with bad := line :: s.bad }
     | some p =>
       let t := runTop (s.names.valOf oid) [] p 0 s.m
-      let s1 := s.emit ("run " ++ outcomeText s.names s.m.cg t)
+      -- the first evaluation of the case prints the reference snapshot and probe, as `inject` does
+      let s0 := if s.based then s else
+        { (s.emit ("base " ++ snapshot s.names s.m)).emit ("probe0 " ++ probeText s.names s.m.cg s.m) with based := true }
+      let s1 := s0.emit ("run " ++ outcomeText s.names s.m.cg t)
       -- side effects stay; the registers are what the evaluation left
       { s1 with m := { t.after with out := [], shape := none } }
   | "input" :: oid :: rest =>
